@@ -18,5 +18,5 @@ def explore(ctx):
     ctx.assumptions = ['reference sponge and permutation are the harness\'s own (poseidon_ref.hpp)', 'lengths beyond Lmax repeat the residues mod 8 already covered five times (structure is a loop over 8-element blocks)']
     for n in ('c07_avx2', 'c07_avx512', 'c07_w8'):
         if n in ctx.bins:
-            ctx.run_step(n, ctx.bins[n])
+            ctx.run_step(n, ctx.bins[n], ['--lits', ctx.lits_arg()])
     ctx.stats['traces_validated_against_impl'] = ctx.stats.get('states_w32', 0)
